@@ -122,6 +122,32 @@ func secRun(in []byte) (interface{}, error) {
 	}, 0)
 	runAbortable(func() { sup.GetSlotState() })
 	paths = append(paths, "checkpoint load", "slot supervisor with failing nodes")
+	// connection opening: right password, wrong password, and an auth command the server does not know (a Redis >= 5 answers
+	// an unknown command by echoing its arguments, i.e. the password)
+	for _, at := range []string{"auth", "adminauth"} {
+		for _, pw := range []string{sentinels["source.password_raw"], sentinels["target.password_raw"]} {
+			s2 := mredis.New(mredis.Options{Password: sentinels["source.password_raw"], Version: "5.0.7"})
+			a2, _ := s2.Listen()
+			runAbortable(func() {
+				if c := utils.OpenNetConnSoft(a2, at, pw, false); c != nil {
+					c.Close()
+				}
+			})
+			runAbortable(func() {
+				if c, err := utils.OpenNetConn(a2, at, pw, false); err == nil && c != nil {
+					c.Close()
+				}
+			})
+			runAbortable(func() {
+				if c, err := utils.OpenRedisConn([]string{a2}, at, pw, false, false); err == nil && c != nil {
+					c.Do("ping")
+					c.Close()
+				}
+			})
+			s2.Close()
+		}
+	}
+	paths = append(paths, "connection opening with auth / an unknown auth command, right and wrong password")
 	if raw, ok := cfg.Sub["supervisor"]; ok {
 		// the supervisor family's scenarios (master unchanged, fail-over to a remembered slave, nodes failing, nobody master)
 		// with credentials in the supervised node
